@@ -689,7 +689,7 @@ func checkC15(c *hx.Checker) {
 		}
 	}
 	// the variadic operator with long input lists (tables sized after the largest fixed arity - LSTM's 8 - end there)
-	for _, n := range []int{6, 7, 8, 9, 10, 16, 33} {
+	for _, n := range []int{6, 7, 8, 9, 10, 16, 33, 64, 65, 100, 257} {
 		for _, d := range []string{"float32", "int64", "bool"} {
 			row := make([]string, n)
 			for k := range row {
